@@ -15,12 +15,13 @@ func init() { register("C16", "other", checkC16) }
 
 func checkC16(w *World, r *Result) {
 	r.Explanation = "Decides structural necessary conditions: PTH-C16a no append to CustomConstraints is reachable on the path where the select-key directive matched (internal directives never reach SQL), and unique/select-key/constraint classification all read the same comment; FLW-C16b every constant.Value text (ExactString/String) that reaches SQL text passes the double-to-single quote conversion; AGR-C16c custom-query placeholders are numbered i+1 by the range index over the ordered Inputs slice, an input is appended only for a name not seen before, and the generated Go function builds its signature and its argument list in one loop over that same slice; RE-C16 the word regexp of the table-name replacer is exactly maximal runs of \\w and the replacement is an exact map lookup leaving other words unchanged, the enum placeholder regexp has exactly two groups, REFERENCES captures one word that goes through SQLTableName; FLW-C16t a constraint is emitted for the table of the iteration that owns it, with ALTER TABLE only for texts starting with ADD. Does not decide: attribution of comments to structs in grouped declarations, exact rewriting results as strings, typing of inputs."
-	r.Rules = []string{"PTH-C16a", "FLW-C16b", "AGR-C16c", "RE-C16", "FLW-C16t", "CONST-EXACT"}
+	r.Rules = []string{"PTH-C16a", "FLW-C16b", "AGR-C16c", "RE-C16", "FLW-C16t", "PTH-C16o", "CONST-EXACT"}
 	checkProcessComments(w, r)
 	checkQuoteConversion(w, r)
 	checkCustomQuery(w, r)
 	checkRegexFacts(w, r)
 	checkConstraintOwner(w, r)
+	checkEnumsLast(w, r)
 	if _, n := constExactRule(w, r, func(rel string) bool { return rel == "generator" }); n < 1 {
 		Undecided("CONST-EXACT: ReplaceEnums no longer prints the constant through the exact printer, or its shape changed")
 	}
@@ -533,4 +534,67 @@ func checkConstraintOwner(w *World, r *Result) {
 		return true
 	})
 	r.cond(addOK, "FLW-C16t", gc.Name, "ADD … is attached with ALTER TABLE <own table>", fnPos(w, gc), "texts starting with ADD are wrapped in ALTER TABLE SQLTableName(ta.TableName())", "a constraint starting with ADD is not attached to its table with ALTER TABLE")
+}
+
+// checkEnumsLast (PTH-C16o): the enum placeholders are expanded after every other rewriting of the text. The
+// literal #[T.C] stands for is data (the Go value of the constant): a pass that rewrites words -- the table-name
+// replacer, a regexp or strings replacement -- applied after the expansion would also rewrite that value when it
+// happens to contain a table name. Obligations: every call of generator.ReplaceEnums whose result is stored in a
+// variable; no later call in the same function passes that variable to a rewriting function.
+func checkEnumsLast(w *World, r *Result) {
+	re := w.MustFunc("generator.ReplaceEnums")
+	n := 0
+	for _, fi := range sortedFuncs(w) {
+		if fi.Decl.Body == nil {
+			continue
+		}
+		info := fi.Pkg.TypesInfo
+		ast.Inspect(fi.Decl.Body, func(x ast.Node) bool {
+			as, ok := x.(*ast.AssignStmt)
+			if !ok || len(as.Lhs) != 1 || len(as.Rhs) != 1 {
+				return true
+			}
+			call, ok := as.Rhs[0].(*ast.CallExpr)
+			if !ok || calleeOf(info, call) != re.Obj {
+				return true
+			}
+			id := identOf(as.Lhs[0])
+			if id == nil {
+				return true
+			}
+			obj := objOf(info, id)
+			n++
+			late := ""
+			ast.Inspect(fi.Decl.Body, func(y ast.Node) bool {
+				c, ok := y.(*ast.CallExpr)
+				if !ok || c.Pos() <= call.End() {
+					return true
+				}
+				fn := calleeOf(info, c)
+				if fn == nil {
+					return true
+				}
+				full := fn.FullName()
+				rewriter := strings.HasSuffix(full, "generator.TableNameReplacer).Replace") ||
+					strings.HasPrefix(full, "(*regexp.Regexp).ReplaceAll") ||
+					full == "strings.ReplaceAll" || full == "strings.Replace" || full == "(*strings.Replacer).Replace"
+				if !rewriter {
+					return true
+				}
+				for _, a := range c.Args {
+					if aid := identOf(a); aid != nil && objOf(info, aid) == obj {
+						late = es(c) + " at " + w.Pos(c.Pos())
+					}
+				}
+				return true
+			})
+			r.cond(late == "", "PTH-C16o", fi.Name, "enum placeholders expanded last: "+es(as.Lhs[0])+" = ReplaceEnums(…)", w.Pos(call.Pos()),
+				"no rewriting pass is applied to the text after the constants' values were inserted",
+				"the text is rewritten by "+late+" after the enum placeholders were expanded: a string constant that contains a table name (or whatever that pass matches) is altered, and no longer is the SQL literal of the constant's value")
+			return true
+		})
+	}
+	if n < 2 {
+		Undecided("PTH-C16o: fewer ReplaceEnums call sites than confirmed by hand (%d)", n)
+	}
 }
